@@ -26,7 +26,12 @@ def main():
     build_coq()
     proof_coverage(PROP, res)
     n = 8 if a.tier == "quick" else 60
-    if a.replay:
+    replay_seq = None
+    if a.replay and "sequence" in json.load(open(a.replay))["input"]:
+        rp = json.load(open(a.replay))
+        replay_seq = [{"engine": rp.get("engine", "gin"), "sequence": [(x["edit"], x["project"]) for x in rp["input"]["sequence"]]}]
+        projects = [rp["input"]["sequence"][-1]["project"]]
+    elif a.replay:
         projects = [json.load(open(a.replay))["input"]]
     else:
         projects = []
@@ -74,7 +79,11 @@ def main():
     for (k, e) in notgen[:2]:
         res.violation({"kind": "correspondence", "obligation": "gleece generate routes failed or file unparsable",
                        "input": projects[k], "engine": e, "cli_output": results[k][e]["out"][-1500:]}, no_input=True)
-    served = server_correspondence(res, rng, projects, a.tier)
+    served = server_correspondence(res, rng, projects, a.tier, prefer=sorted(set(meta[i][0] for i in failing))[:2])
+    # sequences of generations in one process / through spec-and-routes: the same obligation on every artifact
+    seqstats = R.seq_router_leg(res, PROP, rng, projects[:(1 if a.tier == "quick" else 5)], a.tier, explicit=replay_seq) \
+        if (replay_seq or not a.replay) else {}
+    res.coverage["generation_sequences"] = seqstats
     nregs = sum(len(results[k][e]["hir"]["registrations"]) for (k, e, s) in meta if s == "ok")
     shas = sorted(set(results[k][e]["hir"]["authorize_sha"] for (k, e, s) in meta if s == "ok"))
     res.coverage["obligations"] = res.coverage.get("obligations", 0) + len(rows)
@@ -118,7 +127,7 @@ def coq_trace(alts, o):
     return coq_list(ev)
 
 
-def server_correspondence(res, rng, projects, tier):
+def server_correspondence(res, rng, projects, tier, prefer=()):
     """All approve/refuse assignments of every route's checks, each with a valid and a malformed request,
     against the five compiled routers: the observed callback trace must be the model's, and prop_C03 must hold."""
     nserve = 3 if tier == "quick" else 10
@@ -128,6 +137,10 @@ def server_correspondence(res, rng, projects, tier):
         return p["controllers"][0]["name"] == "PCtl" and not p["config"]["default_security"] and \
             not p["controllers"][0]["security"] and any(m["security"] for m in p["controllers"][0]["methods"])
     chosen += [C12.clean_project(p) for p in projects if interesting(p)][:2]
+    # projects whose routes file failed its translation obligation are served too: the search for a failing request
+    chosen += [C12.clean_project(projects[k]) for k in prefer]
+    # a controller declared inside a documented `type ( ... )` block, when one was generated
+    chosen += [C12.clean_project(p) for p in projects[nserve:] if any(c.get("shape") == "grouped_decl" for c in p["controllers"])][:1]
     h = servers.build_servers(PROP + "_srv", chosen)
     reqs, meta, hrows = [], [], []
     for k, p in enumerate(chosen):
